@@ -831,8 +831,56 @@ inductive NextArm where
             if name not in named:
                 raise ExtractError(f"parse_expr_binop: condition `{cj}` of the bool remap refers to an unknown name")
             applies = [o for o in applies if (o not in named[name]) == neg]
-        out = ["import RsslVerif.Gen.TypingTables\n" + T.header("BinopTyping", ["typer/src/typer/expressions.rs"])]
+        # ---- `most_significant_non_vector`, the whole body: an optional first step that replaces an enum operand by the
+        # underlying type of its enum, then the two rank lookups and `if left_order > right_order { Ok(left) } else { Ok(right) }`
+        msn = normws(fn_body(expr, "most_significant_non_vector"))
+        tail = ("let left_order = match get_non_vector_conversion_rank(left, module) { Some(order) => order, "
+                "None => return Err(TyperError::NumericTypeExpected(left_location)), }; "
+                "let right_order = match get_non_vector_conversion_rank(right, module) { Some(order) => order, "
+                "None => return Err(TyperError::NumericTypeExpected(right_location)), }; "
+                "if left_order > right_order { Ok(left) } else { Ok(right) }")
+        if not msn.endswith(tail):
+            raise ExtractError(f"most_significant_non_vector: the rank comparison has an unknown shape: {msn[-300:]!r}")
+        pro = msn[:-len(tail)].strip()
+        under = "module.enum_registry.get_underlying_type_id(id)"
+        if pro == "":
+            # every enum takes part as an enum (rank `enumRank`), whatever the other operand is
+            lone_enum, two_enums = "asEnum", "asEnum"
+        else:
+            pm = re.fullmatch(r"let left_tyl = module\.type_registry\.get_type_layer\(left\); "
+                              r"let right_tyl = module\.type_registry\.get_type_layer\(right\); "
+                              r"let \(left, right\) = match \(left_tyl, right_tyl\) \{ (.*) \};", pro)
+            if not pm:
+                raise ExtractError(f"most_significant_non_vector: the step before the rank comparison has an unknown shape: {pro[:300]!r}")
+            arms = [(tuple(p), g, normws(r).rstrip(",")) for p, g, r in match_arms(pm.group(1))]
+            E = "ir::TypeLayer::Enum"
+            variants = {
+                # the fix of batch 3: exactly one enum operand -> its underlying type; two enums unchanged
+                ("asEnum", "underlying"): [((f"({E}(_), {E}(_))",), None, "(left, right)"),
+                                           ((f"({E}(id), _)",), None, f"({under}, right)"),
+                                           ((f"(_, {E}(id))",), None, f"(left, {under})"),
+                                           (("_",), None, "(left, right)")],
+            }
+            hit = [k for k, v in variants.items() if arms == v]
+            if not hit:
+                raise ExtractError(f"most_significant_non_vector: unknown arms in the enum step: {arms!r}")
+            two_enums, lone_enum = hit[0]
+        # `get_underlying_type_id` is the registered underlying type of that enum
+        enums_rs = T.src("ir/src/ir_enums.rs")
+        gu = normws(fn_body(enums_rs, "get_underlying_type_id"))
+        if not re.fullmatch(r"(assert_ne!\(self\.type_ids\[id\.0 as usize\], TypeId\(u32::MAX\)\); )?self\.underlying_type_ids\[id\.0 as usize\]", gu):
+            raise ExtractError(f"EnumRegistry::get_underlying_type_id has an unknown shape: {gu[:200]!r}")
+        out = ["import RsslVerif.Gen.TypingTables\n" + T.header("BinopTyping", ["typer/src/typer/expressions.rs", "ir/src/ir_enums.rs"])]
         out.append("open RsslVerif.Gen.RankTable RsslVerif.Gen.TypingTables\n\n")
+        out.append("/-- how an enum operand enters the rank comparison of `most_significant_non_vector` -/\n"
+                   "inductive EnumEntry where\n"
+                   "  /-- as the enum type itself (rank `enumRank`) -/\n  | asEnum\n"
+                   "  /-- replaced by the underlying type of its enum (`enum_registry.get_underlying_type_id`) -/\n  | underlying\n"
+                   "  deriving DecidableEq, Repr, Inhabited\n\n")
+        out.append("/-- `most_significant_non_vector`, step before the ranks: exactly one of the two operands is an enum -/\n"
+                   f"def loneEnumEntry : EnumEntry := .{lone_enum}\n")
+        out.append("/-- .. both operands are enums -/\n"
+                   f"def twoEnumsEntry : EnumEntry := .{two_enums}\n\n")
         out.append("/-- `parse_expr_binop`, after `most_significant_non_vector`: a common type whose scalar is this one .. -/\n"
                    f"def remapFrom : Scalar := .{lower(frm)}\n")
         out.append(f"/-- .. is replaced by this one (`transform_scalar(target, ..)`) .. -/\ndef remapTo : Scalar := .{lower(to)}\n")
